@@ -59,10 +59,18 @@ impl SyncVecRd {
     /// Fails if the decoder has stopped before (corrupted or truncated compressed data).
     #[inline]
     pub fn wait_for(&self, end: usize) -> std::io::Result<()> {
+        #[cfg(jubako_verif)]
+        crate::verif_hooks::point("sv_wait", self.buffer as u64, end as u64);
         let (lock, cvar) = &*self.decoded;
         let state = cvar
             .wait_while(lock.lock().unwrap(), |s| s.decoded < end && !s.failed)
             .unwrap();
+        #[cfg(jubako_verif)]
+        crate::verif_hooks::point(
+            if state.decoded < end { "sv_woke_failed" } else { "sv_woke" },
+            self.buffer as u64,
+            state.decoded as u64,
+        );
         if state.decoded < end {
             Err(std::io::Error::new(
                 std::io::ErrorKind::InvalidData,
@@ -87,6 +95,8 @@ impl SyncVecRd {
     #[inline]
     fn slice(&self) -> &[u8] {
         let size = self.current_size();
+        #[cfg(jubako_verif)]
+        crate::verif_hooks::point("sv_slice", self.buffer as u64, size as u64);
         unsafe { std::slice::from_raw_parts(self.buffer, size) }
     }
 }
@@ -141,17 +151,31 @@ fn decode_to_end<T: Read + Send>(
                     Ok(read)
                 }
             });
+        #[cfg(jubako_verif)]
+        crate::verif_hooks::point(
+            "sv_written",
+            buffer._arc.as_ptr() as u64,
+            buffer.data.len() as u64,
+        );
         let (lock, cvar) = &*buffer.decoded;
         let mut state = lock.lock().unwrap();
         match read {
             Ok(read) => {
                 uncompressed += read;
                 state.decoded = uncompressed;
+                #[cfg(jubako_verif)]
+                crate::verif_hooks::point(
+                    "sv_publish",
+                    buffer._arc.as_ptr() as u64,
+                    uncompressed as u64,
+                );
                 cvar.notify_all();
             }
             Err(e) => {
                 // Readers waiting for data we will never produce must be woken up.
                 state.failed = true;
+                #[cfg(jubako_verif)]
+                crate::verif_hooks::point("sv_fail", buffer._arc.as_ptr() as u64, uncompressed as u64);
                 cvar.notify_all();
                 return Err(e);
             }
@@ -164,6 +188,12 @@ fn decode_to_end<T: Read + Send>(
 impl SeekableDecoder {
     pub fn new<T: Read + Send + 'static>(decoder: T, size: ASize) -> Self {
         let (write_hand, read_hand) = create_sync_vec(size.into_usize());
+        #[cfg(jubako_verif)]
+        crate::verif_hooks::point(
+            "sv_new",
+            read_hand.buffer as u64,
+            read_hand.total_size as u64,
+        );
 
         DECOMPRESSION_POOL
             .get_or_init(|| {
